@@ -14,6 +14,8 @@ Driver for C03.  Lists: `,` inside a posting list / chunk, `;` between chunks / 
 `-` = empty list at any level, `_` = no chunks at all.
   varint <int>                                   -> ok <hex>
   unvarint <hex>                                 -> ok <int> <bytes left> | err
+  packer.u32 <n> / packer.u64 <n> / packer.str <xhex>   -> ok <hex>      (PutUint32 / PutUint64 / PutStringWithSize)
+  packer.getu32 <hex> / packer.getbinary <hex>       -> ok <n> <bytes left> / ok <xhex> <bytes left>
   deltas.pack <nats>                             -> ok <hex>
   deltas.unpack <hex>                            -> ok <nats> | err
   chunks.pack <chunks> <isLast>                  -> ok <hex>
@@ -141,6 +143,26 @@ def step (line : String) : String :=
     | some bs => match getVarint bs with
       | some r => s!"ok {r.1} {r.2.length}"
       | none => "err"
+    | none => "bad-op"
+  | ["packer.u32", n] =>
+    match n.toNat? with
+    | some n => s!"ok {fmtHex (le32 n)}"
+    | none => "bad-op"
+  | ["packer.u64", n] =>
+    match n.toNat? with
+    | some n => s!"ok {fmtHex (le64 n)}"
+    | none => "bad-op"
+  | ["packer.str", x] =>
+    match xhex? x with
+    | some v => s!"ok {fmtHex (putStr v)}"
+    | none => "bad-op"
+  | ["packer.getu32", h] =>
+    match hex? h with
+    | some bs => s!"ok {(getU32 bs).1} {(getU32 bs).2.length}"
+    | none => "bad-op"
+  | ["packer.getbinary", h] =>
+    match hex? h with
+    | some bs => s!"ok {fmtX (getBinary bs).1} {(getBinary bs).2.length}"
     | none => "bad-op"
   | ["deltas.pack", xs] =>
     match natList? xs with
